@@ -11,7 +11,7 @@
      level0_nonzero   :  the sub-size-1 evaluation is not identically zero (the complementary input class is
                          the known finding `level0-all-zero`, see C09_iterate_level0_all_zero_* below).        *)
 From Coq Require Import Reals List Bool Arith Lra.
-From PAV Require Import Base.NumOps Base.Res Base.Sum Model.C09 Proofs.C09.
+From PAV Require Import Base.NumOps Base.Res Base.Sum Model.C09 Proofs.C09 Model.C09h Proofs.C09h.
 Import ListNotations.
 Local Open Scope R_scope.
 
@@ -178,6 +178,48 @@ Proof.
   - apply A; [lra|]. unfold Rmin, Rmax. destruct (Rle_dec 4 5); lra.
 Qed.
 
+(* ---- 5. HISTORIES (Model/C09h.v): the state kept between calls is transparent.
+        ONE OverSamplerUniform object (cached_property over_sampled_grid / slim_for_sub_slim /
+        sub_mask_native_for_sub_mask_slim; sub_pixel_areas, binning and array_via_func_from read the current sub-size
+        map): every result of every history of reads, binnings, user functions and in-place edits `sub_size[i] = s`
+        equals the pure function of the CURRENT contents on that step's input alone.  Hypothesis: the map is edited
+        only while no cached property has been read ([edits_before_caches]). *)
+Theorem C09_sampler_history_pure : forall m (ps og : R * R) ss (ops : list (@sop ROps)),
+  edits_before_caches false ops = true ->
+  @srun ROps (@sampler_new ROps m ps og ss) ops = @spure_run ROps m ps og ss ops.
+Proof. exact (@sampler_history_pure ROps). Qed.
+Theorem C09_sampler_history_no_edit : forall m (ps og : R * R) ss (ops : list (@sop ROps)),
+  forallb (fun op => match op with SEdit _ _ => false | _ => true end) ops = true ->
+  @srun ROps (@sampler_new ROps m ps og ss) ops = map (@spure ROps m ps og ss) ops.
+Proof. exact (@sampler_history_no_edit ROps). Qed.
+(* non-vacuity: a history with edits, cached reads, functions; and the hypothesis excludes an edit after a cached read *)
+Example C09_history_hyp_nonvacuous :
+  @edits_before_caches ROps false [@SAreas ROps; @SEdit ROps 0 2; @SBin ROps [1; 2; 3; 4]; @SEdit ROps 0 4; @SGrid ROps; @SVia ROps (fun p => fst p * snd p); @SSlim ROps; @SGrid ROps] = true /\
+  @edits_before_caches ROps false [@SGrid ROps; @SEdit ROps 0 2; @SGrid ROps] = false.
+Proof. split; reflexivity. Qed.
+(* ONE Grid2D object (cached_property over_sampler, which itself caches its over-sampled grid): k decorated calls with
+   k user functions return what k fresh grids return; no hypothesis *)
+Theorem C09_grid_history_pure : forall m (ps og : R * R) vals os (fs : list (R * R -> R)),
+  @grun ROps (@grid_new ROps m ps og vals os) fs = map (fun f => @decorated ROps f m ps og vals os) fs.
+Proof. exact (@grid_history_pure ROps). Qed.
+(* ... hence each of the k results is the closed-form specification on ITS function alone *)
+Theorem C09_grid_history_uniform_map : forall m (ps og : R * R) ss (fs : list (R * R -> R)),
+  shape_okP m ss -> ps_okR ps ->
+  @grun ROps (@grid_new ROps m ps og (@grid_slim_via_mask ROps m ps og) (@OSUniformMap ROps ss)) fs
+  = map (fun f => Ok (@spec_via_func ROps f m ps og ss)) fs.
+Proof. exact grid_history_uniform_map_spec. Qed.
+Theorem C09_grid_history_uniform_int : forall m (ps og : R * R) s (fs : list (R * R -> R)),
+  (1 <= s)%nat -> ps_okR ps ->
+  @grun ROps (@grid_new ROps m ps og (@grid_slim_via_mask ROps m ps og) (@OSUniformInt ROps s)) fs
+  = map (fun f => Ok (@spec_via_func ROps f m ps og (repeat s (length (unmasked m))))) fs.
+Proof. exact grid_history_uniform_int_spec. Qed.
+Theorem C09_grid_history_iterate : forall m (ps og : R * R) vals thr rel steps (fs : list (R * R -> R)),
+  ps_okR ps -> thr_okR thr -> steps <> [] -> Forall (fun s => (1 <= s)%nat) steps ->
+  Forall (fun f => level0_nonzero f m ps og) fs ->
+  @grun ROps (@grid_new ROps m ps og vals (@OSIterate ROps thr rel steps)) fs
+  = map (fun f => Ok (@spec_iterate ROps f m ps og thr rel steps)) fs.
+Proof. exact grid_history_iterate_spec. Qed.
+
 Print Assumptions C09_hyp_shape.
 Print Assumptions C09_hyp_scales.
 Print Assumptions C09_hyp_thr.
@@ -208,3 +250,10 @@ Print Assumptions C09_rule_first_agreeing_level.
 Print Assumptions C09_rule_no_agreement_gives_last.
 Print Assumptions C09_iterate_level0_all_zero_shortcut.
 Print Assumptions C09_iterate_level0_all_zero_refuted.
+Print Assumptions C09_sampler_history_pure.
+Print Assumptions C09_sampler_history_no_edit.
+Print Assumptions C09_history_hyp_nonvacuous.
+Print Assumptions C09_grid_history_pure.
+Print Assumptions C09_grid_history_uniform_map.
+Print Assumptions C09_grid_history_uniform_int.
+Print Assumptions C09_grid_history_iterate.
